@@ -105,6 +105,7 @@ static void sec_legendre(Ctx& c, uint64_t) {
         std::string key = std::string("oracle:C15/elliptic/complete/") + FN[i];
         if (O.four && i == ref::EL_G && O.kp2 < 0.1 && O.ap2 < 0.1) key = "oracle:C15/elliptic/G/4-arg-ctor-alpha2-minus-k2-cancellation";
         else if (i >= 3 && rj_stressed(O) && e <= 1e9 * cond) key = RJKEY;
+        else if (i == ref::EL_E && O.kp2 > 0 && O.kp2 < 1e-20 && e <= 128) key = "oracle:C15/elliptic/carlson/RG/argument-spread>1e3";   // E() = 2 R_G(k'^2, 1)
         c.viol(key, cls, w);
       }
     }
@@ -144,7 +145,7 @@ static void sec_legendre(Ctx& c, uint64_t) {
       // for |phi| >= pi the library uses (delta + phi) * complete / (pi/2): the complete integral's own cancellation enters as well
       if (i >= 3 && !isinfq(R.C[i]) && !isinfq(R.C[0])) { double c0 = (double)((fabsq(R.C[0]) + fabsq(R.C[i] - R.C[0])) / fabsq(R.C[i])); if (fabsq((q128)phi) >= 3) cc = std::max(cc, c0); if (signbitq((q128)cn)) cc3 = std::max(cc3, c0); }
       if (i >= 3 && !isinfq(Wq[i]) && !isinfq(Wq[0]) && Wq[i] != 0) { double cq_ = (double)((fabsq(Wq[0]) + fabsq(Wq[i] - Wq[0])) / fabsq(Wq[i])); cc = std::max(cc, cq_); cc3 = std::max(cc3, cq_); }
-      bool four_g = O.four && i == ref::EL_G && O.kp2 < 0.1 && O.ap2 < 0.1;
+      bool four_g = O.four && i == ref::EL_G && O.kp2 < 0.1 && O.ap2 < 0.1;   // (alpha2 - k2) formed from the rounded values: amplification ~ 1/|alpha2 - k2|
       bool unrep = fabsq(W[i]) < 1e-290Q;       // result in the underflow range: not judged
       // --- real-argument overload
       if (unrep) c.event("incomplete integral below 1e-290 not judged");
@@ -154,15 +155,16 @@ static void sec_legendre(Ctx& c, uint64_t) {
         double condslack = isinfq(W[i]) || W[i] == 0 ? 0 : (double)(fabsq(ig[i]) * (q128)ref::ulp_d(phi) / fabsq(W[i])) / EPS;
         c.obs(std::string("incomplete ") + FN[i] + "(phi) rel err [eps]", e, J(w).f("got", got[i]).str("want", ref::qstr(W[i])));
         c.obs(std::string("incomplete ") + FN[i] + "(phi) rel err beyond +-1ulp(phi) conditioning [eps]", std::max(0.0, e - condslack), J(w).f("got", got[i]).str("want", ref::qstr(W[i])));
+        if (O.k2 >= -10 && O.kp2 >= 1e-4 && O.a2 >= -10 && O.ap2 >= 1e-4) c.obs(std::string("NORMAL REGIME (-10<=k2<=1-1e-4, -10<=alpha2<=1-1e-4) incomplete ") + FN[i] + "(phi) rel err / cancellation conditioning [eps]", e / cc, J(w).f("got", got[i]).str("want", ref::qstr(W[i])));
         c.obs(std::string("incomplete ") + FN[i] + "(phi) rel err / cancellation conditioning [eps]", e / cc, J(w).f("got", got[i]).str("want", ref::qstr(W[i])));
-        if (!(e <= K_ELL * cc + condslack)) c.viol(four_g ? std::string("oracle:C15/elliptic/G/4-arg-ctor-alpha2-minus-k2-cancellation") : (i >= 3 && rj_stressed(O) && e <= 1e9 * cc ? std::string(RJKEY) : std::string("oracle:C15/elliptic/incomplete/") + FN[i]), cls, J(w).f("got", got[i]).str("want", ref::qstr(W[i])).f("err_eps", e).f("cond_slack_eps", condslack));
+        if (!(e <= K_ELL * cc + condslack)) c.viol(four_g ? std::string("oracle:C15/elliptic/G/4-arg-ctor-alpha2-minus-k2-cancellation") : (i >= 3 && rj_stressed(O) && e <= 1e9 * cc ? std::string(RJKEY) : (i == ref::EL_E && O.kp2 > 0 && O.kp2 < 1e-20 && e <= 256 ? std::string("oracle:C15/elliptic/carlson/RG/argument-spread>1e3") : std::string("oracle:C15/elliptic/incomplete/") + FN[i])), cls, J(w).f("got", got[i]).str("want", ref::qstr(W[i])).f("err_eps", e).f("cond_slack_eps", condslack));
       } else c.event("divergent integral beyond pi/2 not judged");
       // --- (sn,cn,dn) overload
       bool beyond3 = signbitq((q128)cn);
       if (!(div && beyond3) && !unrep) {
         double e = relerr(got3[i], W3[i]);
         c.obs(std::string("incomplete ") + FN[i] + "(sn,cn,dn) rel err [eps]", e, J(w).f("got", got3[i]).str("want", ref::qstr(W3[i])));
-        if (!(e <= K_ELL * cc3)) c.viol(four_g ? std::string("oracle:C15/elliptic/G/4-arg-ctor-alpha2-minus-k2-cancellation") : (i >= 3 && rj_stressed(O) && e <= 1e9 * cc3 ? std::string(RJKEY) : std::string("oracle:C15/elliptic/incomplete-sncndn/") + FN[i]), cls, J(w).f("sn", sn).f("cn", cn).f("dn", dn).f("got", got3[i]).str("want", ref::qstr(W3[i])).f("err_eps", e));
+        if (!(e <= K_ELL * cc3)) c.viol(four_g ? std::string("oracle:C15/elliptic/G/4-arg-ctor-alpha2-minus-k2-cancellation") : (i >= 3 && rj_stressed(O) && e <= 1e9 * cc3 ? std::string(RJKEY) : (i == ref::EL_E && O.kp2 > 0 && O.kp2 < 1e-20 && e <= 256 ? std::string("oracle:C15/elliptic/carlson/RG/argument-spread>1e3") : std::string("oracle:C15/elliptic/incomplete-sncndn/") + FN[i])), cls, J(w).f("sn", sn).f("cn", cn).f("dn", dn).f("got", got3[i]).str("want", ref::qstr(W3[i])).f("err_eps", e));
       }
       // --- periodic part: pi I(phi) / (2 I_c) - phi, period pi, odd.  Reference at the angle in (-pi/2, pi/2] equivalent mod pi
       if (!div && fabsq(phr) > 1e-290Q) {
@@ -389,18 +391,23 @@ static void sec_carlson(Ctx& c, uint64_t idx) {
   w.f("got", got).str("want", ref::qstr(want)).f("err_eps", e);
   if (c.want_sample(cls)) c.sample(cls, w);
   c.obs(std::string("carlson ") + KN[kind] + " rel err [eps] (" + sb + (bigmag ? ", magnitudes beyond 1e+-75)" : ")"), unrepresentable ? 0 : e, w);
-  if (!(e <= K_CARLSON) && !unrepresentable) {
+  // three-argument R_G is documented (Carlson 1.7) as [z R_F - (x-z)(y-z) R_D/3 + sqrt(xy/z)]/2: cancellation condition number of that sum
+  double kcar = K_CARLSON;
+  if (kind == 3 && x > 0 && y > 0 && z > 0 && !bigmag && spread <= 1e3) {
+    q128 t1 = (q128)z * ref::carlson(ref::C_RF, x, y, z), t2 = ((q128)x - z) * ((q128)y - z) * ref::carlson(ref::C_RD, x, y, z) / 3, t3 = sqrtq((q128)x * y / z);
+    double cnd = (double)((fabsq(t1) + fabsq(t2) + fabsq(t3)) / (2 * fabsq(want)));
+    c.obs("carlson RG3 rel err / cancellation conditioning of (1.7) [eps] (spread<=1e3)", e / cnd, w); kcar *= cnd; }
+  if (!(e <= kcar) && !unrepresentable) {
     std::string key = std::string("oracle:C15/elliptic/carlson/") + KN[kind];
     if (bigmag) key = "oracle:C15/elliptic/carlson/overflow-underflow/magnitudes-beyond-1e+-75";
-    // (the three-argument R_G shows its argument-ordering cancellation from a ratio of ~1e2 on; same finding, same key)
-    else if (spread > 1e3 || (kind == 3 && spread > 1e2)) key = std::string("oracle:C15/elliptic/carlson/") + (kind == 3 || kind == 4 ? "RG" : KN[kind]) + "/argument-spread>1e3";
+    else if (spread > 1e3) key = std::string("oracle:C15/elliptic/carlson/") + (kind == 3 || kind == 4 ? "RG" : KN[kind]) + "/argument-spread>1e3";
     c.viol(key, cls, w);
   }
   // symmetry and homogeneity laws (moderate arguments)
   if (!wide && spread <= 1e3) {
     if (kind == 0) { double a = EllipticFunction::RF(y, z, x), b = EllipticFunction::RF(z, x, y); if (!(relerr(a, (q128)got) <= 8 && relerr(b, (q128)got) <= 8)) c.viol("law:C15/elliptic/carlson/RF-symmetry", cls, w);
       double s = std::ldexp(1.0, 2 * r.range(-20, 20)), h = EllipticFunction::RF(x * s, y * s, z * s) * std::sqrt(s); if (!(relerr(h, (q128)got) <= 4)) c.viol("law:C15/elliptic/carlson/RF-homogeneity", cls, J(w).f("scale", s)); }
-    if (kind == 3 && spread <= 1e2) { double a = EllipticFunction::RG(y, z, x), b = EllipticFunction::RG(z, x, y); if (!(relerr(a, (q128)got) <= 32 && relerr(b, (q128)got) <= 32)) c.viol("law:C15/elliptic/carlson/RG-symmetry", cls, J(w).f("perm1", a).f("perm2", b)); }
+    if (kind == 3 && spread <= 10) { double a = EllipticFunction::RG(y, z, x), b = EllipticFunction::RG(z, x, y); if (!(relerr(a, (q128)got) <= 32 && relerr(b, (q128)got) <= 32)) c.viol("law:C15/elliptic/carlson/RG-symmetry", cls, J(w).f("perm1", a).f("perm2", b)); }
     if (kind == 5) { double a = EllipticFunction::RJ(y, z, x, p); if (!(relerr(a, (q128)got) <= 16)) c.viol("law:C15/elliptic/carlson/RJ-symmetry", cls, J(w).f("perm", a)); }
     if (kind == 6) { double a = EllipticFunction::RD(y, x, z); if (!(relerr(a, (q128)got) <= 8)) c.viol("law:C15/elliptic/carlson/RD-symmetry", cls, J(w).f("perm", a));
       if (x > 0) { double j = EllipticFunction::RJ(x, y, z, z); if (!(relerr(j, (q128)got) <= 16)) c.viol("law:C15/elliptic/carlson/RD=RJ(x,y,z,z)", cls, J(w).f("RJ", j)); } }
